@@ -238,7 +238,7 @@ func c13Check(c *Ctx, cs c13Case) *Failure {
 	}
 
 	type ret struct {
-		err            error
+		err             error
 		runningAtReturn int
 	}
 	done := make(chan ret, 1)
